@@ -97,6 +97,10 @@ Theorem C11_entry_and_modify : forall q k suf v, QInv cfg q -> valid_key cfg k =
   qxstep cfg q (QEAndMod k suf v) = match q_get cfg q k with Some w => (q_set cfg q k (w ++ suf), XoVC (w ++ suf) true) | None => (q_set cfg q k v, XoVC v false) end.
 Proof. apply entry_and_modify_is_reference; sc. Qed.
 Print Assumptions C11_entry_and_modify.
+Theorem C11_entry_and_modify_clearing : forall q k v, QInv cfg q -> valid_key cfg k = true ->
+  qxstep cfg q (QEAndClr k v) = match q_get cfg q k with Some w => (q_set cfg q k [], XoVC [] true) | None => (q_set cfg q k v, XoVC v false) end.
+Proof. apply entry_and_clear_is_reference; sc. Qed.
+Print Assumptions C11_entry_and_modify_clearing.
 Theorem C11_invalid_key_every_operation : forall q k, valid_key cfg k = false ->
   forall v suf, qxstep cfg q (QEOrIns k v) = (q, XoE) /\ qxstep cfg q (QEOrInsWith k v) = (q, XoE) /\ qxstep cfg q (QEAndMod k suf v) = (q, XoE)
   /\ qxstep cfg q (QEInsert k v) = (q, XoE) /\ qxstep cfg q (QERemove k) = (q, XoE) /\ qxstep cfg q (QERemoveEntry k) = (q, XoE) /\ qxstep cfg q (QEGetMut k suf) = (q, XoE)
